@@ -42,7 +42,7 @@ def run(ctx, res):
     # ---- R1a writer -------------------------------------------------------
     mw = prog.need("metadata_write", "mtbl/metadata.c")
     res.saw(mw)
-    ev = APE.run(prog, cg, mw, bound=1)
+    ev = APE.run(prog, cg, mw, bound=APE.BOUND)
     paths = [p for p in ev.paths if p.end == "exit"]
     if len(paths) != 1:
         raise BrokenAnalysis("metadata_write: expected one straight path, got %d" % len(paths))
@@ -89,7 +89,7 @@ def run(ctx, res):
     # ---- R1b reader -----------------------------------------------------------
     mr = prog.need("metadata_read", "mtbl/metadata.c")
     res.saw(mr)
-    ev = APE.run(prog, cg, mr, bound=1)
+    ev = APE.run(prog, cg, mr, bound=APE.BOUND)
     fv = prog.enums.get("mtbl_file_version", {})
     ok_paths = 0
     versions = {}
@@ -204,7 +204,7 @@ def run(ctx, res):
         m = re.match(r"^\((.*m\.%s@\d+)\+(.*)\)$" % re.escape(e.a.split("m.")[-1]), s)
         return bool(m) and m.group(2) == operand
 
-    ev = APE.run(prog, cg, add, bound=1)
+    ev = APE.run(prog, cg, add, bound=APE.BOUND)
     for p in ev.paths:
         if p.end != "exit":
             continue
@@ -221,7 +221,7 @@ def run(ctx, res):
                 res.check(not st, "C10.R2", site(add, "%s:%s" % (tag, fld)), "refused add leaves %s alone" % fld,
                           "refused add updates %s" % fld, add.loc(st[0].node) if st else None, p.describe(add))
 
-    ev = APE.run(prog, cg, wdb, bound=1)
+    ev = APE.run(prog, cg, wdb, bound=APE.BOUND)
     for p in ev.paths:
         if p.end != "exit":
             continue
@@ -237,7 +237,7 @@ def run(ctx, res):
                       "per written data block %s is updated %d time(s) with %s" % (fld, len(st), [APE.vstr(x.b) for x in st]),
                       wdb.loc(st[0].node) if st else wdb.loc(wdb.body), p.describe(wdb))
 
-    ev = APE.run(prog, cg, fin, bound=1)
+    ev = APE.run(prog, cg, fin, bound=APE.BOUND)
     for p in ev.paths:
         if p.end != "exit":
             continue
@@ -266,7 +266,7 @@ def run(ctx, res):
                   "bytes_index_block := bytes returned by the framing function for the index block",
                   "bytes_index_block := %s" % APE.vstr(evs[bib[0]].b), fin.loc(evs[bib[0]].node))
 
-    ev = APE.run(prog, cg, ini, bound=1)
+    ev = APE.run(prog, cg, ini, bound=APE.BOUND)
     want = {"data_block_size": r"opt\.block_size", "compression_algorithm": r"opt\.compression_type", "file_version": None}
     for p in ev.paths:
         if p.end != "exit":
